@@ -178,7 +178,7 @@ func TestVerifEngineChild(t *testing.T) {
 	proj, err := Load(root, &LoadOptions{
 		Events:      rec,
 		Builtins:    starlark.StringDict{"os": starlark_os.Module, "sh": starlark_sh.Module, "json": starlark_json.Module},
-		PreferIndex: mode == "gcindex",
+		PreferIndex: mode == "gcindex" || mode == "loadindex",
 	})
 	if err != nil {
 		rep.LoadErr = err.Error()
@@ -196,11 +196,56 @@ func TestVerifEngineChild(t *testing.T) {
 
 	verifhook.At("phase", "run")
 	switch mode {
-	case "load":
+	case "load", "loadindex":
 	case "gc", "gcindex":
 		if err := proj.GC(); err != nil {
 			rep.RunErr = err.Error()
 		}
+		rep.Ran = true
+	case "gc+reload+run+gc":
+		// one long-lived Project: collect, the tree changes (staged files are copied in), Reload, Run, collect again.
+		// The second collection works on the labels that exist THEN.
+		l, err := label.Parse(rawLabel)
+		if err != nil {
+			rep.RunErr = "bad label: " + err.Error()
+			break
+		}
+		if err := proj.GC(); err != nil {
+			rep.RunErr = "first gc: " + err.Error()
+			break
+		}
+		stage := os.Getenv("VERIF_STAGE")
+		filepath.WalkDir(stage, func(p string, d fs.DirEntry, err error) error {
+			if err != nil || d.IsDir() {
+				return nil
+			}
+			rel, _ := filepath.Rel(stage, p)
+			b, _ := os.ReadFile(p)
+			os.MkdirAll(filepath.Dir(filepath.Join(root, rel)), 0755)
+			os.WriteFile(filepath.Join(root, rel), b, 0644)
+			return nil
+		})
+		if err := proj.Reload(); err != nil {
+			rep.LoadErr = "reload: " + err.Error()
+			break
+		}
+		rep.Targets = nil
+		for _, tg := range proj.Targets() {
+			rep.Targets = append(rep.Targets, tg.Label().String())
+		}
+		sort.Strings(rep.Targets)
+		rep.RunErr = errText(proj.Run(l, nil))
+		before := readRecordFiles(root)
+		if err := proj.GC(); err != nil {
+			rep.RunErr += " | second gc: " + err.Error()
+		}
+		after := readRecordFiles(root)
+		for name := range before {
+			if _, ok := after[name]; !ok {
+				rep.Notes = append(rep.Notes, "removed:"+name)
+			}
+		}
+		sort.Strings(rep.Notes)
 		rep.Ran = true
 	case "dry+straggler":
 		// a dry run whose Run call returns (with an error) while another target is still being evaluated: whatever that
